@@ -206,6 +206,18 @@ func ruleMustCallEntries(c *Ctx, u *Universe, prop string, table []mustCallEntry
 		for _, k := range strings.Split(e.Callee, "|") {
 			names[k] = true
 		}
+		// the work function no longer exists in the tree (inlined into its callers or removed as a whole): the pair
+		// has no subject; what the work must achieve is the business of the property's other rules
+		gone := true
+		for k := range names {
+			if !moduleFuncGone(u, k) {
+				gone = false
+			}
+		}
+		if gone {
+			R.hold(rule, key, u.pos(f.Pos()), "the work function "+e.Callee+" does not exist in this tree (inlined or removed): nothing to call")
+			continue
+		}
 		ok := mustCall(u, f, names, 2, map[*ssa.Function]int{})
 		R.check(ok, rule, key, u.pos(f.Pos()), "every normal exit is preceded by the call that does the work: "+e.Why,
 			"a path returns normally without calling "+e.Callee+" (a shortcut around the work): "+e.Why)
@@ -231,4 +243,19 @@ func dumpMustCall(u *Universe, rels []string) {
 	}
 	b, _ := json.MarshalIndent(mustCallCandidates(u, fns), "", " ")
 	fmt.Println(string(b))
+}
+
+// moduleFuncGone: name (as given by callName) denotes a function or method of the module that the tree does not
+// declare (under any listed alias)
+func moduleFuncGone(u *Universe, name string) bool {
+	rel := ""
+	for r := range u.Pkgs {
+		if strings.HasPrefix(name, r+".") && len(r) > len(rel) {
+			rel = r
+		}
+	}
+	if rel == "" || strings.HasPrefix(name, "invoke:") {
+		return false
+	}
+	return u.ssaFunc(rel, name[len(rel)+1:]) == nil
 }
